@@ -36,6 +36,7 @@ use std::task::{Context, Poll, Wake, Waker};
 pub fn dispatch(mode: &str, a: &Args) -> Option<Args> {
     Some(match mode {
         "conn_run" => conn_run(a),
+        "req_new" => req_new(a),
         _ => return None,
     })
 }
@@ -89,7 +90,7 @@ fn errkind(e: &io::Error) -> u128 {
         ConnectionReset => 4,
         InvalidData => 5,
         WriteZero => 6,
-        BrokenPipe => 7,
+        BrokenPipe | Interrupted | TimedOut | WouldBlock => 7,
         _ => 8,
     }
 }
@@ -141,7 +142,10 @@ impl AsyncRead for Reader {
             return Poll::Pending;
         }
         if r == R_ERR {
-            return Poll::Ready(Err(io::ErrorKind::BrokenPipe.into()));
+            // a transport error is a transport error whatever its kind: the mock alternates between kinds (by the parity of the bytes
+            // delivered so far) that the observation maps to the same code; no kind may be treated as "try again"
+            let kind = [io::ErrorKind::BrokenPipe, io::ErrorKind::Interrupted, io::ErrorKind::TimedOut, io::ErrorKind::WouldBlock][w.pos % 4];
+            return Poll::Ready(Err(kind.into()));
         }
         let n = (r.min(usize::MAX as u128) as usize).min(buf.len()).min(slen - w.seg_off);
         let pos = w.pos;
@@ -414,6 +418,76 @@ fn mk_handler(
     }
 }
 
+/// req_new <cfg: B, max_conns, vectored, preselect> <rscript> <wscript> <wire> <script>
+/// The embedding application does what Token::run does, by hand, through the public constructors: it parses the preamble with a
+/// request::Parser (greedy reads, replies written at once), converts it, optionally selects a stream on the stream::Parser
+/// (preselect != 0) BEFORE wrapping it with the public `Request::new`, runs the handler script, and calls `Request::close` itself.
+/// observation: [outcome 0 returned / 1 suspended for good, polls, code], counters, log, events; first event [300, is_writeable() at
+/// construction, active stream]; code: 10 close handed back a parser, 20 + kind close failed, 40 + kind the handler failed (no close)
+fn req_new(a: &Args) -> Args {
+    let cfgv = arg(a, 0);
+    let g = |i: usize| cfgv.get(i).copied().unwrap_or(0);
+    let cfg = config(g(0) as usize, g(1).max(1) as usize);
+    let wire = bytes(&arg(a, 3));
+    let script = arg(a, 4);
+    let mut rp = fastcgi_server::parser::request::Parser::new(&cfg);
+    let mut out = Vec::new();
+    let (done, unfed) = crate::reqp::feed(&mut rp, &wire, &[], &mut out);
+    if !done {
+        return vec![vec![3]];
+    }
+    let Ok(mut sp) = rp.into_stream_parser() else { return vec![vec![3]] };
+    if g(3) != 0 && sp.set_stream(Some(stype(g(3)))).is_err() {
+        return vec![vec![3]];
+    }
+    let rest = wire[wire.len() - unfed..].to_vec();
+    let consumed0 = wire.len() - unfed;
+    let world = Arc::new(Mutex::new(World {
+        rscript: arg(a, 1), ri: 0, wscript: arg(a, 2), wi: 0, segs: vec![(0, 0, rest.len())], seg_i: 0, seg_off: 0,
+        wire: rest, pos: 0, wlog: out, blocked: false, vectored: g(2) != 0, eof_reads: 0,
+    }));
+    let ev: Arc<Mutex<Args>> = Arc::new(Mutex::new(Vec::new()));
+    let mut head: Vec<u128> = Vec::new();
+    let r = catch_unwind(AssertUnwindSafe(|| {
+        let flag = Arc::new(Flag(AtomicBool::new(false)));
+        let waker = Waker::from(flag.clone());
+        let mut cx = Context::from_waker(&waker);
+        let (ev2, flag2, world2) = (ev.clone(), flag.clone(), world.clone());
+        let mut task: Pin<Box<dyn Future<Output = u128> + '_>> = Box::pin(async move {
+            let mut req = Request::new(sp, Reader(world2.clone()), Writer(world2.clone()));
+            ev2.lock().expect("ev").push(vec![300, u128::from(req.is_writeable()), req.active_stream().map_or(0, |t| u128::from(u8::from(t)))]);
+            match run_script(&mut req, script, ev2.clone(), flag2).await {
+                Ok(status) => match req.close(status).await {
+                    Ok(_) => 10,
+                    Err(e) => 20 + errkind(&e),
+                },
+                Err(e) => 40 + errkind(&e),
+            }
+        });
+        let mut polls: u128 = 0;
+        loop {
+            polls += 1;
+            flag.0.store(false, Ordering::SeqCst);
+            world.lock().expect("world").blocked = false;
+            if let Poll::Ready(code) = task.as_mut().poll(&mut cx) {
+                head = vec![0, polls, code];
+                break;
+            }
+            if !flag.0.load(Ordering::SeqCst) {
+                head = vec![1, polls];
+                break;
+            }
+        }
+    }));
+    if r.is_err() {
+        head = vec![PANIC];
+    }
+    let w = world.lock().unwrap_or_else(|e| e.into_inner());
+    let mut res = vec![head, vec![(consumed0 + w.pos) as u128, w.ri.min(w.rscript.len()) as u128, w.wi.min(w.wscript.len()) as u128], nums(&w.wlog)];
+    res.extend(ev.lock().unwrap_or_else(|e| e.into_inner()).iter().cloned());
+    res
+}
+
 fn conn_run(a: &Args) -> Args {
     let cfgv = arg(a, 0);
     let g = |i: usize| cfgv.get(i).copied().unwrap_or(0);
@@ -543,6 +617,20 @@ pub fn dispatch_writers(mode: &str, a: &Args) -> Option<Args> {
 type WFut = Pin<Box<dyn Future<Output = io::Result<()>> + Send>>;
 
 fn writers(a: &Args) -> Args {
+    let res = writers_run(a, false);
+    if res.first().map_or(false, |h| h.first() == Some(&0)) {
+        // the same case once more under a WAKE-DRIVEN schedule after the scripted steps: a participant is polled again only when its own
+        // waker has fired.  Pure liveness assertion (nothing of this run is compared with the model): every writer finishes and a
+        // reply owed by the request is flushed; otherwise a wake-up was lost (lock hand-over or transport readiness).
+        let second = writers_run(a, true);
+        if second.first().map_or(true, |h| h.first() != Some(&0)) {
+            return vec![vec![PANIC]];
+        }
+    }
+    res
+}
+
+fn writers_run(a: &Args, wake_driven: bool) -> Args {
     use fastcgi_server::async_io::StreamWriter;
     let cfgv = arg(a, 0);
     let g = |i: usize| cfgv.get(i).copied().unwrap_or(0);
@@ -571,7 +659,19 @@ fn writers(a: &Args) -> Args {
                 Poll::Pending => panic!("no token"),
             }
         };
-        let handler = mk_writers_handler(specs, order, steps.clone());
+        let has_query = {
+            // a GetValues record (type 9, id 0) with a non-empty body among the client's records
+            let (mut k, mut q) = (0usize, false);
+            while k + 8 <= wire.len() {
+                let clen = usize::from(wire[k + 4]) * 256 + usize::from(wire[k + 5]);
+                if wire[k + 1] == 9 && wire[k + 2] == 0 && wire[k + 3] == 0 && clen > 0 {
+                    q = true;
+                }
+                k += 8 + clen + usize::from(wire[k + 6]);
+            }
+            q
+        };
+        let handler = mk_writers_handler(specs, order, steps.clone(), wake_driven, has_query, world.clone());
         let mut task: Pin<Box<dyn Future<Output = ()>>> =
             Box::pin(token.run(Reader(world.clone()), Writer(world.clone()), handler));
         let mut polls: u128 = 0;
@@ -604,11 +704,15 @@ fn mk_writers_handler(
     specs: Vec<Vec<u128>>,
     order: Vec<u128>,
     steps: Arc<Mutex<Args>>,
+    wake_driven: bool,
+    has_query: bool,
+    world: Arc<Mutex<World>>,
 ) -> impl for<'a, 'b> FnMut(&'a mut Request<'b, Reader, Writer>) -> BoxFuture<'a, io::Result<ExitStatus>> {
     move |req| {
         let specs = specs.clone();
         let order = order.clone();
         let steps = steps.clone();
+        let world = world.clone();
         Box::pin(async move {
             // build the writers (clones share everything but their per-record state) and their write_all futures
             let mut ws: Vec<Option<fastcgi_server::async_io::StreamWriter<Writer>>> = Vec::new();
@@ -636,6 +740,67 @@ fn mk_writers_handler(
             let mut rr = 0usize;
             let mut idle_rounds = 0usize;
             let mut err: Option<io::Error> = None;
+            if wake_driven {
+                // participants 0..n-1 = writers, n = the request's read side; each has its own waker
+                let n = futs.len();
+                let flags: Vec<Arc<Flag>> = (0..=n).map(|_| Arc::new(Flag(AtomicBool::new(false)))).collect();
+                let wakers: Vec<Waker> = flags.iter().map(|f| Waker::from(f.clone())).collect();
+                let mut request_polled = false;
+                let mut failed = false;
+                let mut poll_one = |idx: usize, futs: &mut Vec<Option<WFut>>, req: &mut Request<'_, Reader, Writer>, failed: &mut bool, request_polled: &mut bool| {
+                    flags[idx].0.store(false, Ordering::SeqCst);
+                    let mut pcx = Context::from_waker(&wakers[idx]);
+                    if idx == n {
+                        *request_polled = true;
+                        let mut buf = [0u8; 4];
+                        if let Poll::Ready(Err(_)) = Pin::new(&mut *req).poll_read(&mut pcx, &mut buf) {
+                            *failed = true;
+                        }
+                    } else if let Some(f) = futs[idx].as_mut() {
+                        match f.as_mut().poll(&mut pcx) {
+                            Poll::Pending => {},
+                            Poll::Ready(Ok(())) => futs[idx] = None,
+                            Poll::Ready(Err(_)) => {
+                                futs[idx] = None;
+                                *failed = true;
+                            },
+                        }
+                    }
+                };
+                for &o in &order {
+                    let idx = if o == 99 { n } else { o as usize };
+                    if idx <= n {
+                        poll_one(idx, &mut futs, req, &mut failed, &mut request_polled);
+                    }
+                }
+                // every participant that was never polled gets its first poll; afterwards only wake-ups count
+                for idx in 0..n {
+                    poll_one(idx, &mut futs, req, &mut failed, &mut request_polled);
+                }
+                let mut rounds = 0usize;
+                while let Some(idx) = (0..=n).find(|&i| flags[i].0.load(Ordering::SeqCst)) {
+                    rounds += 1;
+                    assert!(rounds < 2_000_000, "writers (wake-driven): no termination");
+                    poll_one(idx, &mut futs, req, &mut failed, &mut request_polled);
+                }
+                if !failed {
+                    assert!(futs.iter().all(Option::is_none), "a writer is suspended and nobody will wake it: lost wake-up");
+                    if has_query && request_polled {
+                        let w = world.lock().expect("world");
+                        let mut k = 0usize;
+                        let mut replied = false;
+                        while k + 8 <= w.wlog.len() {
+                            if w.wlog[k + 1] == 10 {
+                                replied = true;
+                            }
+                            k += 8 + usize::from(w.wlog[k + 4]) * 256 + usize::from(w.wlog[k + 5]) + usize::from(w.wlog[k + 6]);
+                        }
+                        assert!(replied, "the request owes a management reply, is suspended, and nobody will wake it: lost wake-up");
+                    }
+                }
+                drop(futs);
+                return Ok(ExitStatus::SUCCESS);
+            }
             std::future::poll_fn(|cx| {
                 let n = futs.len();
                 if futs.iter().all(Option::is_none) {
